@@ -26,12 +26,14 @@ FUNCTIONS = ["metrics.APE/RPE.process_data", "PE.get_all_statistics", "PE.get_re
              "metrics.id_pairs_from_delta", "trajectory.merge", "geometry.umeyama_alignment", "geometry.accumulated_distances", "geometry.arc_len",
              "lie_algebra.se3_inverse / relative_se3 / sim3_inverse / so3_log", "file_interface.write_tum_trajectory_file / write_kitti_poses_file / "
              "save_res_file", "pandas_bridge.trajectory_to_df / result_to_df", "PosePath3D.get_infos / get_statistics / check / distances / speeds / __eq__",
-             "split_time_gaps / split_distance_gaps / split_speed_outliers", "copy.deepcopy", "transform / scale / project / reduce_to_ids (mutators)"]
+             "split_time_gaps / split_distance_gaps / split_speed_outliers", "copy.deepcopy", "transform / scale / project / reduce_to_ids (mutators)",
+             "plot.traj / traj_xyz / traj_rpy / speeds / traj_colormap / draw_coordinate_axes / draw_correspondence_edges / trajectories"]
 BOUNDS = {"quick": "N = 3 poses; one derivation x one mutation (two-step histories)", "thorough": "N = 4; all derivation x mutation pairs"}
 STUBS = ["SVD / eigh / sqrt / acos* / atan2 stubs as elsewhere", "savetxt / save / json text-cell stubs (do not write to their argument)"]
 ASSUMPTIONS = ["valid trajectories"]
-OUTSIDE = ["plot functions (C20)", "bag writer"]
-MODS = ("evo.tools.file_interface", "evo.tools.pandas_bridge")
+OUTSIDE = ["plot functions beyond the 8 listed (ros_map, map_tile, PlotCollection)", "bag writer"]
+MODS = ("evo.tools.file_interface", "evo.tools.pandas_bridge", "evo.tools.plot")
+PLOTS = ["traj", "traj_xyz", "traj_rpy", "speeds", "traj_colormap", "draw_coordinate_axes", "draw_correspondence_edges", "trajectories"]
 
 DERIVE = ["deepcopy", "associate_first", "associate_second", "split_time_gaps", "split_distance_gaps", "split_speed_outliers", "merge"]
 MUTATE = ["transform", "scale", "project", "reduce_to_ids", "align_origin"]
@@ -42,13 +44,16 @@ PURE = ["ape_trans", "ape_full", "rpe_trans", "rpe_point", "statistics", "align_
 
 
 def worker_init():
-    common.ensure_loaded(MODS)
+    from . import c20
+    c20.worker_init(MODS)          # evo.tools.plot bound to the recording artists of C20
 
 
 def cases(tier, seed):
     out = [dict(name="rotation_lemmas", kind="lemmas")]
     for p in PURE:
         out.append(dict(name="args_unchanged__" + p, kind="pure", fn=p))
+    for pl in PLOTS:
+        out.append(dict(name="args_unchanged__plot_" + pl, kind="plot", fn=pl))
     for d in DERIVE:
         for m in MUTATE:
             out.append(dict(name="independent__%s__then__%s" % (d, m), kind="derive", derive=d, mutate=m))
@@ -288,6 +293,82 @@ def run_pure(case, col):
     def on_exc(pr):
         col.d["harness_errors"].append(dict(ob="path", why="unexpected %s: %s" % (pr.status, pr.exc)))
     runner.explore_case(col, fn, assume, on_ok, on_exc, timeout_ms=30000, pins=common.pins_for(TA, TB, n=1), max_paths=400)
+
+
+# --------------------------------------------------------------------------
+# Part A': plot functions (recording artists of C20) leave the plotted trajectories unchanged
+# --------------------------------------------------------------------------
+def plot_call(name, Pm, mk_axes, A, B, start, real=False):
+    mode = Pm.PlotMode.xyz
+    if name == "traj":
+        Pm.traj(mk_axes(True), mode, A, label="a")
+    elif name == "traj_xyz":
+        Pm.traj_xyz([mk_axes(False) for _ in range(3)], A, start_timestamp=start)
+    elif name == "traj_rpy":
+        Pm.traj_rpy([mk_axes(False) for _ in range(3)], A, start_timestamp=start)
+    elif name == "speeds":
+        Pm.speeds(mk_axes(False), A, start_timestamp=start)
+    elif name == "traj_colormap":
+        arr = A.positions_xyz[:, 0]
+        Pm.traj_colormap(mk_axes(True), A, arr, mode, 0, 1)
+    elif name == "draw_coordinate_axes":
+        Pm.draw_coordinate_axes(mk_axes(True), A, mode, 0.5)
+    elif name == "draw_correspondence_edges":
+        Pm.draw_correspondence_edges(mk_axes(True), A, B, mode)
+    elif name == "trajectories":
+        Pm.trajectories(mk_axes(True), {"a": A, "b": B}, mode)
+
+
+def run_plot(case, col):
+    from . import c20
+    name = case["fn"]
+    n = 3
+    TA, TB = SymTraj("a", n), SymTraj("b", n)
+    z0 = z3.Real("start_timestamp")
+    inputs = dict(TA.inputs(), **TB.inputs())
+    inputs.update(start_timestamp=z0)
+    assume = TA.assumptions() + TB.assumptions() + [z0 != 0]
+
+    def fn():
+        A, B = TA.build("quat"), TB.build("quat")
+        A.poses_se3, B.poses_se3
+        sa, sb = snap_traj(A), snap_traj(B)
+        va, vb = views_of(A), views_of(B)
+        plot_call(name, S("evo.tools.plot"), lambda three: c20.RecAxes3D() if three else c20.RecAxes(), A, B, SymReal(z0))
+        return A, B, sa, sb, va, vb
+
+    def replay(vals):
+        Pr, plt = c20.real_plot_env()
+        A, B = TA.concrete(vals), TB.concrete(vals)
+        A.poses_se3, B.poses_se3
+        sa, sb = snap_traj(A), snap_traj(B)
+        va, vb = views_of(A), views_of(B)
+        try:
+            fig = plt.figure()
+
+            def mk_axes(three):
+                return fig.add_subplot(projection="3d") if three else fig.add_subplot()
+            plot_call(name, Pr, mk_axes, A, B, float(vals["start_timestamp"]), real=True)
+        except Exception as e:      # noqa: BLE001
+            return False, "replay raised %s: %s" % (type(e).__name__, e)
+        finally:
+            plt.close("all")
+        bad = []
+        if not traj_unchanged(A, sa, True) or not views_equal(views_of(A), va, True):
+            bad.append("plot.%s modified the plotted trajectory" % name)
+        if not traj_unchanged(B, sb, True) or not views_equal(views_of(B), vb, True):
+            bad.append("plot.%s modified the second trajectory" % name)
+        return bool(bad), "; ".join(bad) or "ok"
+
+    def on_ok(pr):
+        A, B, sa, sb, va, vb = pr.out
+        g = {"plotted_trajectory_unchanged": z3.BoolVal(traj_unchanged(A, sa) and views_equal(views_of(A), va)),
+             "second_trajectory_unchanged": z3.BoolVal(traj_unchanged(B, sb) and views_equal(views_of(B), vb))}
+        runner.check_obligations(col, pr.ctx, g, inputs, replay, descr=case["name"])
+
+    def on_exc(pr):
+        col.d["harness_errors"].append(dict(ob="path", why="unexpected %s: %s" % (pr.status, pr.exc)))
+    runner.explore_case(col, fn, assume, on_ok, on_exc, timeout_ms=30000, pins=common.pins_for(TA, TB, n=1), max_paths=400, must_reach=("ok",))
 
 
 # --------------------------------------------------------------------------
